@@ -172,3 +172,77 @@ Fixpoint drop_classes (masks : list (list bool)) (cs : list cdesc) : list cdesc 
 
 Definition drop_fields (masks : list (list bool)) (sc : schema) : schema :=
   mkS (drop_classes masks (classes sc)) (enums sc).
+
+(* ---- the loop body for a record of a known field, after its value has been decoded:
+        try: current = getattr(self, name) except AttributeError: current = default; setattr(self, name, current)
+        map entry / list extend-append / setattr.   Independent of the fuel. ---- *)
+Definition store (sc : schema) (o : obj) (i : nat) (f : fdesc) (value : pv) : result obj :=
+  let '(o, current) :=
+    match getattr sc o i with
+    | (o', Ok cur_v) => (o', cur_v)
+    | (_, Err _) => let d := default_of sc f in (setattr sc o i d, d)
+    end in
+  let 'Obj c raw sow unk cur := o in
+  if ptype_eqb (fty f) TMap then
+    match value, current with
+    | PMsg e, PDict d =>
+        match getattr sc e 0, getattr sc e 1 with
+        | (_, Ok k), (_, Ok v) => Ok (Obj c (set_nth i (PDict (dict_set d sc k v)) raw) sow unk cur)
+        | _, _ => Err EAttribute
+        end
+    | _, _ => Err EType
+    end
+  else
+    match current with
+    | PList l =>
+        let l' := match value with PList vs => l ++ vs | _ => l ++ [value] end in
+        Ok (Obj c (set_nth i (PList l') raw) sow unk cur)
+    | _ => Ok (setattr sc o i value)
+    end.
+
+(* a record sequence applied to an object, left to right *)
+Fixpoint fold_steps (fuel' : nat) (sc : schema) (cd : cdesc) (o : obj) (ps : list parsed) : result obj :=
+  match ps with
+  | [] => Ok o
+  | p :: ps' => do o' <- step fuel' sc cd o p; fold_steps fuel' sc cd o' ps'
+  end.
+
+(* Message.load's first action: self._serialized_on_wire = True *)
+Definition touch (o : obj) : obj := let 'Obj c raw _ unk cur := o in Obj c raw true unk cur.
+Definition add_unk (o : obj) (bs : list byte) : obj := let 'Obj c raw sow unk cur := o in Obj c raw sow (unk ++ bs) cur.
+Definition set_unk (o : obj) (bs : list byte) : obj := let 'Obj c raw sow _ cur := o in Obj c raw sow bs cur.
+
+(* executable version of [records] (Proofs/C08FrameP.v: frames_sound / frames_complete) *)
+Fixpoint frames (n : nat) (s : list byte) : option (list parsed) :=
+  match n with
+  | O => None
+  | S n' =>
+      match s with
+      | [] => Some []
+      | _ => match frame1 s with
+             | Ok (p, s') => match frames n' s' with Some ps => Some (p :: ps) | None => None end
+             | Err _ => None
+             end
+      end
+  end.
+
+(* the field a record is decoded into, if any *)
+Definition field_of (cd : cdesc) (p : parsed) : option fdesc :=
+  match field_by_number cd (pnum p) with
+  | Some (_, f) => if wire_type_fits f (pwt p) then Some f else None
+  | None => None
+  end.
+
+(* fk is in no oneof group, or in another one than fu *)
+Definition sep_b (fk fu : fdesc) : bool :=
+  match fgroup fk with None => true | Some g => negb (opt_nat_eqb (fgroup fu) (Some g)) end.
+
+(* side condition of the evolution theorem, decidable: no oneof group of the newer class has a member the
+   older class deleted AND a member it kept both PRESENT among the records (a canonical encoder emits
+   at most one member per group, so encodings of messages meet it) *)
+Definition split_free (cdn cdo : cdesc) (ps : list parsed) : bool :=
+  forallb (fun u => forallb (fun k =>
+    match field_of cdn u, field_of cdn k with
+    | Some fu, Some fk => negb (is_unknown cdo u && negb (is_unknown cdo k)) || sep_b fk fu
+    | _, _ => true
+    end) ps) ps.
